@@ -501,6 +501,8 @@ func init() {
 		Edit{t4, "\t\t\tr.decodeFrom(d)\n\t\t\td.SetErr(r)\n\t\t\treturn\n", "\t\t\tr.decodeFrom(d)\n"})
 	mut("C19", "rhp/v2 readMessage returns the Open error without closing", true, "tamper-closes|rhp/v2.(*Transport).readMessage",
 		Edit{"rhp/v2/transport.go", "\t\tt.setErr(err) // not an I/O error, but still fatal\n\t\treturn err\n\t}\n\td = types.NewBufDecoder(plaintext)", "\t\treturn err\n\t}\n\td = types.NewBufDecoder(plaintext)"})
+	mut("C19", "VerifyTag records a nil error on tag mismatch", true, "tamper-closes|rhp/v2.(*ResponseReader).VerifyTag",
+		Edit{"rhp/v2/transport.go", "\t\trr.setErr(err) // not an I/O error, but still fatal\n\t\treturn err\n\t}\n\treturn nil\n}", "\t\tvar none error\n\t\trr.setErr(none)\n\t\treturn err\n\t}\n\treturn nil\n}"})
 	mut("C19", "setErr records the error but leaves the connection open", true, "tamper-closes|rhp/v2.(*Transport).setErr",
 		Edit{"rhp/v2/transport.go", "\t\t\tt.conn.Close()\n\t\t\tt.err = err", "\t\t\tt.err = err"})
 	mut("C19", "gateway ObjectForID maps the relay-header id to the relay-transaction-set object", true, "registries|gateway:idForObject/ObjectForID",
